@@ -21,12 +21,16 @@ CONSTANTS Pkgs,          \* e.g. {"p", "q"}
 \*  noinj    : no injector at all (a provider set only)
 \*  typeerr  : does not type-check (outside the properties' quantifier; modelled as what happens)
 \*  okA2     : okA plus one more injector at the end (its output extends okA's output)
-Variants == {"okA", "okA2", "okB", "bad", "noinj", "typeerr"}
-HasInj(v) == v \in {"okA", "okA2", "okB", "bad", "typeerr"}
+\*  tagbad   : okA plus a file constrained to the build tag "extra" whose injector Wire must refuse: what the package is
+\*             depends on the -tags of the command (Eff)
+Variants == {"okA", "okA2", "okB", "bad", "noinj", "typeerr", "tagbad"}
+HasInj(v) == v \in {"okA", "okA2", "okB", "bad", "typeerr", "tagbad"}
 Generates(v) == v \in {"okA", "okA2", "okB"}
 
 Headers  == {"none", "ok", "unreadable"}
 Tags     == {"", "extra more"}        \* none, or two extra build tags in wire's space-separated form
+\* the variant a package presents to a command run with the tags tg
+Eff(v, tg) == IF v = "tagbad" THEN (IF tg = "" THEN "okA" ELSE "bad") ELSE v
 
 \* content of an output file
 Fresh(v, hdr, tg) == "gen:" \o v \o ":" \o hdr \o ":" \o tg
@@ -61,7 +65,8 @@ InitAny == /\ src \in [Pkgs -> Variants]
 InitFocus == /\ src \in [Pkgs -> Variants]
              /\ \E h \in {"none", "ok"}, t \in Tags :
                   disk \in [Slot -> {"absent", "stale"} \cup {Fresh(v, h, t) : v \in {"okA", "okA2", "okB"}}]
-             /\ \A s \in Slot : disk[s] \in {"absent", "stale"} \/ (Generates(src[s[1]]) /\ \E h \in {"none", "ok"}, t \in Tags : disk[s] = Fresh(src[s[1]], h, t))
+             /\ \A s \in Slot : disk[s] \in {"absent", "stale"}
+                                 \/ \E h \in {"none", "ok"}, t \in Tags : Generates(Eff(src[s[1]], t)) /\ disk[s] = Fresh(Eff(src[s[1]], t), h, t)
              /\ hist = <<>>
              /\ last = [cmd |-> "none", args |-> [pkgs |-> {}], exit |-> 0]
 
@@ -88,36 +93,36 @@ Clobber(p, x, c) == /\ disk[<<p, x>>] # c
 
 (* ---- wire gen ---------------------------------------------------------------- *)
 LoadFails(P) == \E p \in P : src[p] = "typeerr"
-SomeBad(P)   == \E p \in P : src[p] = "bad"
-GenExit(P, hdr) == IF hdr = "unreadable" \/ LoadFails(P) \/ SomeBad(P) THEN 1 ELSE 0
+SomeBad(P, tg) == \E p \in P : Eff(src[p], tg) = "bad"
+GenExit(P, hdr, tg) == IF hdr = "unreadable" \/ LoadFails(P) \/ SomeBad(P, tg) THEN 1 ELSE 0
 GenDisk(P, hdr, x, tg) ==
   IF hdr = "unreadable" \/ LoadFails(P) THEN disk              \* nothing is written at all
   ELSE [s \in Slot |->
-          IF s[1] \in P /\ s[2] = x /\ Generates(src[s[1]])
-          THEN Fresh(src[s[1]], hdr, tg)                         \* whole-file overwrite, whatever was there
+          IF s[1] \in P /\ s[2] = x /\ Generates(Eff(src[s[1]], tg))
+          THEN Fresh(Eff(src[s[1]], tg), hdr, tg)                         \* whole-file overwrite, whatever was there
           ELSE disk[s]]                                          \* failing / injector-less / other packages untouched
 Gen(P, hdr, x, tg, form) ==
   /\ form = "default" => (hdr = "none" /\ x = "std" /\ tg = "")
   /\ disk' = GenDisk(P, hdr, x, tg)
   /\ UNCHANGED src
-  /\ Rec("gen", [pkgs |-> P, header |-> hdr, prefix |-> x, tags |-> tg, form |-> form], GenExit(P, hdr))
+  /\ Rec("gen", [pkgs |-> P, header |-> hdr, prefix |-> x, tags |-> tg, form |-> form], GenExit(P, hdr, tg))
 
 (* ---- wire diff / check / show: read-only ----------------------------------- *)
 DiffExit(P, hdr, tg) ==
-  IF hdr = "unreadable" \/ LoadFails(P) \/ SomeBad(P) THEN 2
-  ELSE IF \E p \in P : Generates(src[p]) /\ disk[<<p, "std">>] # Fresh(src[p], hdr, tg) THEN 1
+  IF hdr = "unreadable" \/ LoadFails(P) \/ SomeBad(P, tg) THEN 2
+  ELSE IF \E p \in P : Generates(Eff(src[p], tg)) /\ disk[<<p, "std">>] # Fresh(Eff(src[p], tg), hdr, tg) THEN 1
   ELSE 0
 \* per package: what diff finds there (recorded so that replay samples can be stratified by it)
-DiffFinds(p, hdr, tg) == IF ~Generates(src[p]) THEN src[p]
-                         ELSE IF disk[<<p, "std">>] = Fresh(src[p], hdr, tg) THEN "same" ELSE "differs"
+DiffFinds(p, hdr, tg) == IF ~Generates(Eff(src[p], tg)) THEN Eff(src[p], tg)
+                         ELSE IF disk[<<p, "std">>] = Fresh(Eff(src[p], tg), hdr, tg) THEN "same" ELSE "differs"
 Diff(P, hdr, tg) ==
   /\ UNCHANGED <<src, disk>>
   /\ Rec("diff", [pkgs |-> P, header |-> hdr, tags |-> tg, finds |-> [p \in P |-> DiffFinds(p, hdr, tg)]], DiffExit(P, hdr, tg))
-CheckExit(P) == IF LoadFails(P) \/ SomeBad(P) THEN 1 ELSE 0
-Check(P) == /\ UNCHANGED <<src, disk>>
-            /\ Rec("check", [pkgs |-> P], CheckExit(P))
-Show(P)  == /\ UNCHANGED <<src, disk>>
-            /\ Rec("show", [pkgs |-> P], CheckExit(P))
+CheckExit(P, tg) == IF LoadFails(P) \/ SomeBad(P, tg) THEN 1 ELSE 0
+Check(P, tg) == /\ UNCHANGED <<src, disk>>
+                /\ Rec("check", [pkgs |-> P, tags |-> tg], CheckExit(P, tg))
+Show(P, tg)  == /\ UNCHANGED <<src, disk>>
+                /\ Rec("show", [pkgs |-> P, tags |-> tg], CheckExit(P, tg))
 
 NonEmpty(S) == (SUBSET S) \ {{}}
 Next ==
@@ -127,8 +132,8 @@ Next ==
      \/ \E p \in Pkgs, x \in Prefixes, c \in Junk : Clobber(p, x, c)
      \/ \E P \in NonEmpty(Pkgs), hdr \in Headers, x \in Prefixes, tg \in Tags, form \in {"gen", "default"} : Gen(P, hdr, x, tg, form)
      \/ \E P \in NonEmpty(Pkgs), hdr \in Headers, tg \in Tags : Diff(P, hdr, tg)
-     \/ \E P \in NonEmpty(Pkgs) : Check(P)
-     \/ \E P \in NonEmpty(Pkgs) : Show(P)
+     \/ \E P \in NonEmpty(Pkgs), tg \in Tags : Check(P, tg)
+     \/ \E P \in NonEmpty(Pkgs), tg \in Tags : Show(P, tg)
 NextDiff == (MaxHist = 0 \/ Len(hist) < MaxHist) /\ \E P \in NonEmpty(Pkgs), hdr \in Headers, tg \in Tags : Diff(P, hdr, tg)
 NextGen  == (MaxHist = 0 \/ Len(hist) < MaxHist) /\ \E P \in NonEmpty(Pkgs), hdr \in Headers, x \in Prefixes, tg \in Tags : Gen(P, hdr, x, tg, "gen")
 \* gen immediately followed by the matching diff (C18's last clause), from every focused state
@@ -144,34 +149,36 @@ IsGen  == last'.cmd = "gen"
 \* C17: gen creates or modifies only <prefix>wire_gen.go of packages that have injectors and analysed cleanly
 OnlyOutputFiles == [][\A s \in Slot : disk'[s] # disk[s] =>
                         \/ last'.cmd \in {"delete", "clobber"}
-                        \/ /\ IsGen /\ s[1] \in last'.args.pkgs /\ s[2] = last'.args.prefix /\ Generates(src[s[1]])]_vars
+                        \/ /\ IsGen /\ s[1] \in last'.args.pkgs /\ s[2] = last'.args.prefix /\ Generates(Eff(src[s[1]], last'.args.tags))]_vars
 \* C17: a failing package's existing file is untouched
-FailingUntouched == [][IsGen => \A s \in Slot : ~Generates(src[s[1]]) => disk'[s] = disk[s]]_vars
+FailingUntouched == [][IsGen => \A s \in Slot : ~Generates(Eff(src[s[1]], last'.args.tags)) => disk'[s] = disk[s]]_vars
 \* C17: diff, check and show never modify the tree
 ReadOnly == [][last'.cmd \in {"diff", "check", "show"} => disk' = disk /\ src' = src]_vars
 \* C17: exit 0 exactly when no package produced an error
 GenStatus == [][IsGen /\ last'.args.header # "unreadable" =>
-                 (last'.exit = 0 <=> \A p \in last'.args.pkgs : src[p] \in {"okA", "okA2", "okB", "noinj"})]_vars
+                 (last'.exit = 0 <=> \A p \in last'.args.pkgs : Eff(src[p], last'.args.tags) \in {"okA", "okA2", "okB", "noinj"})]_vars
 \* C17: a failing package does not prevent output for the others of the same invocation
 Isolation == [][IsGen /\ last'.args.header # "unreadable" /\ ~LoadFails(last'.args.pkgs) =>
-                 \A p \in last'.args.pkgs : Generates(src[p]) =>
-                    disk'[<<p, last'.args.prefix>>] = Fresh(src[p], last'.args.header, last'.args.tags)]_vars
+                 \A p \in last'.args.pkgs : Generates(Eff(src[p], last'.args.tags)) =>
+                    disk'[<<p, last'.args.prefix>>] = Fresh(Eff(src[p], last'.args.tags), last'.args.header, last'.args.tags)]_vars
 \* C17: diff status
 DiffStatus == [][last'.cmd = "diff" =>
                   LET P == last'.args.pkgs IN
-                  /\ last'.exit = 2 <=> (last'.args.header = "unreadable" \/ \E p \in P : src[p] \in {"bad", "typeerr"})
-                  /\ last'.exit = 0 => \A p \in P : Generates(src[p]) => disk[<<p, "std">>] = Fresh(src[p], last'.args.header, last'.args.tags)]_vars
+                  /\ last'.exit = 2 <=> (last'.args.header = "unreadable" \/ \E p \in P : Eff(src[p], last'.args.tags) \in {"bad", "typeerr"})
+                  /\ last'.exit = 0 => \A p \in P : Generates(Eff(src[p], last'.args.tags)) =>
+                                          disk[<<p, "std">>] = Fresh(Eff(src[p], last'.args.tags), last'.args.header, last'.args.tags)]_vars
 \* C18: after a successful gen the file is what a fresh checkout would get - whatever the state (hence the history) was
 Regen == [][IsGen /\ last'.exit = 0 =>
-             \A p \in last'.args.pkgs : Generates(src[p]) =>
-                disk'[<<p, last'.args.prefix>>] = Fresh(src[p], last'.args.header, last'.args.tags)]_vars
+             \A p \in last'.args.pkgs : Generates(Eff(src[p], last'.args.tags)) =>
+                disk'[<<p, last'.args.prefix>>] = Fresh(Eff(src[p], last'.args.tags), last'.args.header, last'.args.tags)]_vars
 \* C18: gen again changes nothing; diff immediately afterwards reports no difference
 GenIdempotent == [][(last.cmd = "gen" /\ last.exit = 0 /\ IsGen /\ last'.args = last.args) => disk' = disk]_vars
 DiffAfterGenZero == [][(last.cmd = "gen" /\ last.exit = 0 /\ last.args.prefix = "std" /\ last'.cmd = "diff"
                         /\ last'.args.pkgs = last.args.pkgs /\ last'.args.header = last.args.header
                         /\ last'.args.tags = last.args.tags) => last'.exit = 0]_vars
 \* C19: check succeeds exactly when gen would
-CheckAgreesWithGen == [][last'.cmd = "check" => (last'.exit = 0 <=> GenExit(last'.args.pkgs, "none") = 0)]_vars
+\* C19: check succeeds exactly when gen would - with the same tags
+CheckAgreesWithGen == [][last'.cmd \in {"check", "show"} => (last'.exit = 0 <=> GenExit(last'.args.pkgs, "none", last'.args.tags) = 0)]_vars
 
 \* simulation: print each behaviour once it reaches the history bound
 EmitAtBound == MaxHist = 0 \/ Len(hist) < MaxHist \/ PrintT(<<"WALK", ToJson(hist)>>)
